@@ -63,7 +63,7 @@ struct Machine {
         polyseed_free(p);
         ptr[i] = nullptr; slot[i].reset(); crypted[i] = false;
     }
-    void finish() { wrap().api = false; wrap().env_fake = nullptr; for (int i = 0; i < NSLOTS; i++) release(i); }
+    void finish() { if (wrap().enabled) { wrap().api = false; wrap().env_fake = nullptr; } /* no shared writes unless interposition is in use: C20 runs many Machines at once */ for (int i = 0; i < NSLOTS; i++) release(i); }
     // What the caller's output variables hold BEFORE a constructor / decoder call is none of the library's business: they are pre-set to NULL,
     // to the (dangling) address of the seed freed last — which the recycling allocator is about to hand out again —, to another live seed,
     // to a non-pointer; lang_out to NULL, to each registered language, to a non-pointer.  Results must be the same.
